@@ -620,6 +620,19 @@ func bodyAlwaysSinks(P *Prog, body, header *ssa.BasicBlock, car carrierSet, cfg 
 				if isCarrier(car, x.X) || (isErrorType(x.X.Type()) && provablyNonNilErr(x.X, b)) {
 					return true
 				}
+				// 'e := err; if own != nil { e = own }; ch <- e': every way the sent value was
+				// chosen is the carrier or an error known to be non-nil where it was chosen
+				if ph, isPhi := strip(x.X).(*ssa.Phi); isPhi && isErrorType(ph.Type()) {
+					all := len(ph.Edges) > 0
+					for i, e := range ph.Edges {
+						if !(isCarrier(car, e) || provablyNonNilErr(e, ph.Block().Preds[i])) {
+							all = false
+						}
+					}
+					if all {
+						return true
+					}
+				}
 			case ssa.CallInstruction:
 				if cfg.sinkCalls[calleeName(x)] {
 					for _, a := range x.Common().Args {
